@@ -406,7 +406,7 @@ def shape(b):
 
 
 def num_key(reader, s, exp, obs):
-    grp = {"lex": "lexer", "ton": "tonumber", "ton10": "tonumber", "tonb": "tonumber-base"}.get(reader, "coerce")
+    grp = {"lex": "lexer", "ton": "tonumber", "ton10": "tonumber", "tonb": "tonumber-base", "for": "forloop"}.get(reader, "coerce")
     raw = bytes(s)
     core = raw.strip(b" \t\n\v\f\r")
     txt = core.decode("latin-1")
@@ -435,6 +435,8 @@ def num_key(reader, s, exp, obs):
             return "C16:num:%s:leading-zero-read-as-octal" % grp
         return "C16:num:%s:wrong-value:%s" % (grp, shape(core))
     if exp[0] == "bad":
+        if any(c >= 128 or 0x1c <= c <= 0x1f for c in core):
+            return "C16:num:%s:non-C-blank-skipped" % grp      # e.g. UTF-8 NBSP trimmed by strings.TrimSpace
         if grp == "tonumber-base" and "." in txt:
             return "C16:num:tonumber-base:fraction-accepted-base-ignored"
         if b"_" in core:
@@ -448,7 +450,7 @@ def num_key(reader, s, exp, obs):
 
 
 READER_NAMES = {"ton": "tonumber(s)", "ton10": "tonumber(s,10)", "add": "s+0", "radd": "0+s", "unm": "-(-s)",
-                "chk": "math.max(s)", "lex": "lexer: return <s>"}
+                "chk": "math.max(s)", "lex": "lexer: return <s>", "for": "for i=s,s,0"}
 
 
 def numeral_failures(e, o, cnt):
@@ -459,6 +461,13 @@ def numeral_failures(e, o, cnt):
         return [("C16:num:go-panic", "Go panic reading %s: %s" % (S(s), o["panic"]), {"part": "num", "s": s})]
     fails = []
     obs_all = [(rd, e["n"], o[rd]) for rd in ("ton", "ton10") + COERCE]
+    if "for" in o:
+        # numeric for-loop bounds (for i = s, s, 0: with step 0 the control variable is exactly the converted
+        # init): one more reader, it must agree like the others (gopher-lua converts strings there since a9ad211)
+        if o["for"][0] in ("nil", "err"):
+            cnt["forloop_no_coercion"] = cnt.get("forloop_no_coercion", 0) + 1
+        else:
+            obs_all.append(("for", e["n"], o["for"]))
     if "lex" in o:
         lx = o["lex"]
         obs_all.append(("lex", e["lx"], ["err"] if lx[0] == "err" and lx[1] == "load" else lx))
@@ -496,9 +505,22 @@ def numeral_failures(e, o, cnt):
     return fails
 
 
+# byte sequences some libraries take for white space although C's isspace ("C" locale) does not: UTF-8 encoded
+# Unicode spaces (Go's strings.TrimSpace / unicode.IsSpace), the lone bytes of NEL / NBSP, ASCII separators
+# 0x1c-0x1f (Python's str.strip).  Lexical.tla: none of them is a blank, so a spelling that contains one is no numeral.
+NON_C_BLANKS = [[0xc2, 0x85], [0xc2, 0xa0], [0xe1, 0x9a, 0x80]] + [[0xe2, 0x80, b] for b in range(0x80, 0x8b)] + \
+               [[0xe2, 0x80, 0xa8], [0xe2, 0x80, 0xa9], [0xe2, 0x80, 0xaf], [0xe2, 0x81, 0x9f], [0xe3, 0x80, 0x80],
+                [0xef, 0xbb, 0xbf], [0x85], [0xa0], [0x1c], [0x1d], [0x1e], [0x1f]]
+
+
 def hand_numerals():
     base = ["1", "10", "0x10", "1.5", "1e1", ".5", "5.", "0"]
     out = []
+    for b in NON_C_BLANKS:
+        for n in ("17", "11", "0x11", "1.5", "1e1", "-17"):
+            n = list(n.encode())
+            out += [b + n, n + b, b + n + b, n[:1] + b + n[1:], b + [32] + n, [32] + b + n, n + [32] + b, n + b + [32],
+                    [9] + b + [10] + n + [13] + b]
     for b in base:
         for bl in (9, 10, 11, 12, 13, 32):
             out += [[bl] + list(b.encode()), list(b.encode()) + [bl], [bl, bl] + list(b.encode()) + [bl]]
@@ -566,7 +588,8 @@ def part_numerals(thorough, verd, stats, cov):
                        "reader_evaluations": evals, "judged": judged, "unspecified_not_judged": unspec,
                        "spellings_that_are_numerals": nontrivial,
                        "malformed_token_split_into_other_tokens_not_judged": retok,
-                       "readers": ["tonumber(s)", "tonumber(s,10)", "s+0", "0+s", "-(-s)", "math.max(s)", "lexer: return <s>"] +
+                       "forloop_bound_not_coerced_not_judged": cnt.get("forloop_no_coercion", 0),
+                       "readers": ["tonumber(s)", "tonumber(s,10)", "s+0", "0+s", "-(-s)", "math.max(s)", "lexer: return <s>", "for i=s,s,0"] +
                                   ["tonumber(s,%d)" % b for b in BASES]}
     cov["samples"] += samples
     vlib.log("[C16] numerals: %d spellings (%d exhaustive), %d reader evaluations, %d judged; TLC %.1fs harness %.1fs compare %.1fs"
@@ -593,6 +616,61 @@ def calendar_gen(off, zname, years, extra, workers=W):
                              "ExtraFile": '"%s"' % fn})
     os.remove(os.path.join(vlib.specdir(), fn))
     return r
+
+
+def date_format_matrix(tz, off, zname, ts, stats, only=None):
+    """os.date on a matrix of formats (every directive alone, followed / surrounded by literal text, next to %%,
+    every ordered pair of directives, also with a literal directive letter between them) at the instants ts.
+    Expected renderings come from CalendarMC.tla Mode "fmt" (pieces rendered independently and concatenated).
+    Returns (candidates, number of renderings compared)."""
+    ts = sorted(set(ts))
+    probe = harness("c16-date", {"ts": ts, "dirs": FMT_DIRS, "comps": [], "fields": []}, "fsingle", env={"TZ": tz})[1:]
+    fn = "c16_bind_%s%d.ndjson" % ("w" if off < 0 else "e", abs(off))
+    vlib.write_ndjson(os.path.join(vlib.specdir(), fn), [{"t": t, "bind": {d: (o["ld"][d] if isinstance(o["ld"][d], str) else "?")
+                                                                           for d in FMT_DIRS}} for t, o in zip(ts, probe)])
+    r = vlib.run_tlc("CalendarMC", "CalendarFmt", workers=W, timeout=900, heap="4g",
+                     consts={"OffsetAbs": abs(off), "OffsetWest": "TRUE" if off < 0 else "FALSE", "ZoneName": '"%s"' % zname,
+                             "ExtraFile": '"%s"' % fn})
+    os.remove(os.path.join(vlib.specdir(), fn))
+    add_stats(stats, r)
+    exp = {}
+    for g in r.tag("GEN"):
+        for f in g["f"]:
+            exp.setdefault(g["t"], {})[f["text"]] = f
+    if sorted(exp) != ts:
+        raise vlib.Infra("CalendarFmt: expected renderings for %d instants, got %d" % (len(ts), len(exp)))
+    texts = sorted(exp[ts[0]]) if only is None else [only]
+    out = harness("c16-date", {"ts": ts, "dirs": [], "comps": texts, "fields": []}, "fmatrix", env={"TZ": tz})[1:]
+    fails, n = [], 0
+    for t, o in zip(ts, out):
+        for text, ob in zip(texts, o["comps"]):
+            f = exp[t][text]
+            n += 1
+            want = "".join(f["segs"])
+            if ob == want:
+                continue
+            # name the first piece at which the observed text leaves the expected one
+            pos, at = 0, len(f["segs"])
+            if isinstance(ob, str):
+                for i, seg in enumerate(f["segs"]):
+                    if ob[pos:pos + len(seg)] != seg:
+                        at = i
+                        break
+                    pos += len(seg)
+
+            def desc(i):
+                if i < 0:
+                    return "start"
+                if i >= len(f["items"]):
+                    return "end"
+                return "%" + f["items"][i][1] if f["items"][i][0] == "d" else "literal"
+            fails.append(("C16:date:format:%s-after-%s" % (desc(at), desc(at - 1)),
+                          "TZ=%s t=%d: os.date(%s, t) = %s, must be %s" % (tz, t, json.dumps(text), json.dumps(ob), json.dumps(want)),
+                          {"part": "datefmt", "tz": tz, "offset": off, "t": t, "format": text, "observed": ob, "expected": want}))
+    return fails, n
+
+
+FMT_DIRS = ["a", "A", "b", "B", "c", "d", "H", "I", "j", "m", "M", "p", "S", "U", "w", "W", "x", "X", "y", "Y", "Z", "%", "F", "P", "z"]
 
 
 def part_dates(thorough, verd, stats, cov):
@@ -677,6 +755,16 @@ def part_dates(thorough, verd, stats, cov):
                 cand("C16:date:os.time:string-fields", "os.time with zero-padded string fields of %s = %s, must be %d" % (json.dumps(g["lf"]), json.dumps(o["fromstr"]), g["back"]))
             if o["noon"] != g["noon"]:
                 cand("C16:date:os.time:default-hour", "os.time{year,month,day} = %s, must be %d (12:00:00)" % (json.dumps(o["noon"]), g["noon"]))
+        # the format matrix at a few instants (single/double digit days, AM/PM, leap day, both ends of the range)
+        fts = [0, 1000000000, 951782400 + 46800, 1234567890, -1000000000, 2 ** 31 - 200000] + \
+              [rng.randrange(-2 ** 31 + 200000, 2 ** 31 - 200000) for _ in range(6 if thorough else 2)]
+        if not utc:
+            fts = fts[:3]
+        ffails, nf = date_format_matrix(tz, off, zname, fts, stats)
+        for item in ffails:
+            verd.candidate(*item)
+        nrend += nf
+        cov["dates"]["format_matrix_renderings"] = cov["dates"].get("format_matrix_renderings", 0) + nf
         total += len(exp)
         cov["dates"]["zones"].append({"TZ": tz, "offset": off, "abbreviation": zname, "instants": len(exp), "years_with_all_month_boundaries": len(years)})
         cov["dates"]["instants"] += len(exp)
@@ -823,6 +911,12 @@ def replay(path):
             bad = o["rt"] != t or o["fromspec"] != g["back"] or o["fromstr"] != g["back"] or o["noon"] != g["noon"]
         if bad:
             verd.candidate(rec["key"], rec["what"], rp)
+    elif part == "datefmt":
+        probe = harness("c16-date", {"ts": [], "dirs": [], "comps": [], "fields": []}, "rpp", env={"TZ": rp["tz"]})[0]
+        fails, _ = date_format_matrix(rp["tz"], rp["offset"], probe["zone"], [rp["t"]], stats, only=rp["format"])
+        for key, what, robj in fails:
+            vlib.log("  fails: [%s] %s" % (key, what))
+            verd.candidate(key, what, robj)
     else:
         raise vlib.Infra("unknown replay part %r" % part)
     return verd.finish()
